@@ -264,3 +264,93 @@ class ZeroPlusPerm:
         return c.iff(result, perm[0] == 0)
 
     modifies = ()
+
+
+# ------------------------------------------------------------- more C10 / C11 wrappers
+GHOST_IMPL["INV"] = lambda p: sum(1 for i in range(len(p)) for j in range(i + 1, len(p)) if p[i] > p[j])
+
+
+@contract("Perm.count_inversions", params={"self": "Perm"}, returns="int", props=("C11",), assumed=True)
+class CountInversionsAssumed:
+    # ASSUMED (Fenwick tree with bit tricks, outside the subset; bounded layer decides it)
+    def requires(c, self):
+        return c.is_perm(self)
+
+    def ensures(c, self, result):
+        return result == c.ghost("INV", self)
+
+
+@contract("Perm.count_non_inversions", params={"self": "Perm"}, returns="int", props=("C11",))
+class CountNonInversions:
+    # pairs i < j are either inversions or non-inversions: n(n-1)/2 - inv
+    def requires(c, self):
+        return c.is_perm(self)
+
+    def ensures(c, self, result):
+        n = c.len(self)
+        return result == c.floordiv(n * (n - 1), 2) - c.ghost("INV", self)
+
+    modifies = ()
+
+
+@contract("Perm.max_drop_size", params={"self": "Perm"}, returns="int", props=("C11",))
+class MaxDropSize:
+    # max over i of p[i] - i (0 for the empty permutation)
+    def requires(c, self):
+        return c.is_perm(self)
+
+    def ensures(c, self, result):
+        n = c.len(self)
+        return c.and_(
+            c.implies(n == 0, result == 0),
+            c.implies(n > 0, lambda: c.and_(c.exists(0, n, lambda i: self[i] - i == result), c.forall(0, n, lambda i: self[i] - i <= result))),
+        )
+
+    modifies = ()
+
+
+@contract("Perm.is_involution", params={"self": "Perm"}, returns="bool", props=("C11",))
+class IsInvolution:
+    def requires(c, self):
+        return c.is_perm(self)
+
+    def ensures(c, self, result):
+        return c.iff(result, c.forall(0, c.len(self), lambda i: self[self[i]] == i))
+
+    modifies = ()
+
+
+@contract("Perm.apply", params={"self": "Perm", "iterable": "Seq"}, returns="Seq", props=("C10",))
+class Apply:
+    def requires(c, self, iterable):
+        return c.and_(c.is_perm(self), c.len(iterable) == c.len(self))
+
+    def ensures(c, self, iterable, result):
+        n = c.len(self)
+        return c.and_(c.len(result) == n, c.forall(0, n, lambda i: result[i] == iterable[self[i]]))
+
+    modifies = ()
+
+
+def _operator(qual, target):
+    @contract(qual, params={"self": "Perm", "other": "Perm"}, returns="Perm", props=("C10",))
+    class _K:
+        # the operator is the named operation on a Perm operand
+        def requires(c, self, other):
+            extra = [c.len(other) == c.len(self)] if target == "Perm.compose" else []
+            return c.and_(c.is_perm(self), c.is_perm(other), *extra)
+
+        def ensures(c, self, other, result):
+            return c.seq_eq(result, c.call(target, self, other))
+
+        def ghost_inverse(c, self, other, result):
+            return result.meta["ginv"]
+
+        modifies = ()
+
+    return _K
+
+
+_operator("Perm.__add__", "Perm.direct_sum")
+_operator("Perm.__sub__", "Perm.skew_sum")
+_operator("Perm.__mul__", "Perm.compose")
